@@ -19,7 +19,7 @@ TECHNIQUE = ('bounded exhaustive enumeration of component chains x per-component
 LEVEL_TEXT = ('All chains of length <= 2 with the full product of 55 documented spellings, all chains of length 3 with <= 1 (quick) '
               'non-default spelling / the full product (thorough), x 7 joiners (incl. upper-case OF THE) x 4 configurations; every case is compared with the '
               'canonical rendering of the same chain under the same configuration and re-fed to the preprocessor. The bare-quarter '
-              'clause is enumerated over all quarters x halves x 5 contexts x clean_qq. Spelling bugs are local to one component and '
+              'clause is enumerated over all quarters x halves x 6 contexts (incl. a half that is itself glued to a preceding component) x clean_qq. Spelling bugs are local to one component and '
               'its neighbours (look-behind / look-ahead guards, regex order), so length 3 covers every neighbourhood.')
 LEVEL_NOTE = ('Trusted: the spelling table (taken from the statement and the comments of pytrs/parser/rgxlib/aliquots.py). The empty '
               'joiner is only combined with a left spelling that ends in a digit or fraction sign.')
@@ -173,6 +173,18 @@ def bare_cases():
                         text = hs + ''.join(gap + q for q in qs)
                         for clean in (False, True):
                             out.append((text, clean, CANON[h] + ''.join(CANON[q] for q in qs), True, 'after_half_chain'))
+    # the half itself preceded by another component, glued or spaced ('NE/4N/2SW', 'S/2 N2 NE')
+    for p in COMPS:
+        for ps in SP[p][:3]:
+            for g1 in ('', ' '):
+                if g1 == '' and ps[-1] not in '24½¼':
+                    continue
+                for h in HALVES:
+                    for hs in (SP[h][0], SP[h][1], SP[h][2]):
+                        for g2 in ('', ' '):
+                            for q in QUARTERS:
+                                for clean in (False, True):
+                                    out.append((ps + g1 + hs + g2 + q, clean, CANON[p] + CANON[h] + CANON[q], True, 'after_prefixed_half'))
     return out
 
 
